@@ -200,6 +200,10 @@ func genC09Rewrites(r *rng, n int, w *bufio.Writer) {
 		if r.chance(1, 5) {
 			k = 7 + r.n(8)
 		}
+		if r.chance(1, 25) {
+			// N2: MANY rewrite rules and exceptions for one host (more than 16 / 32 / 40 / 64)
+			k = n2Count(r, 1, nil, 16, 90)
+		}
 		var ts []string
 		for j := 0; j < k; j++ {
 			switch {
@@ -350,7 +354,11 @@ func genC08Rewrites(r *rng, n int, w *bufio.Writer) {
 	for i := 0; i < n; i++ {
 		var base []string
 		used := map[string]bool{}
-		for j := r.n(6); j > 0; j-- {
+		nb := r.n(6)
+		if r.chance(1, 25) {
+			nb = n2Count(r, 1, nil, 8, 70) // N2: many rewrite rules in the base list
+		}
+		for j := nb; j > 0; j-- {
 			t := c09RuleText(r)
 			if r.chance(1, 8) {
 				t += ",badfilter"
